@@ -157,9 +157,10 @@ impl InnerNodeManage {
         let local_node = self.get_this_node();
         self.all_nodes.entry(self.local_id).or_insert(local_node);
         self.update_nodes_index();
+        let old_range = self.current_range.clone();
         self.update_process_range();
         self.first_query_snapshot(ctx);
-        if is_change {
+        if is_change || self.current_range != old_range {
             //集群节点变更化重新刷新服务管理范围
             self.refresh_process_range();
         }
@@ -379,10 +380,14 @@ impl InnerNodeManage {
                 Self::client_invalid_instance(naming_actor, node);
             }
         }
+        self.sync_process_range();
+    }
+
+    /// 节点存活状态变化引起负责范围变化,同步给naming重新接管范围内的实例
+    fn sync_process_range(&mut self) {
         let old_range = self.current_range.clone();
         self.update_process_range();
         if self.current_range != old_range {
-            //节点存活状态变化引起负责范围变化,同步给naming重新接管范围内的实例
             self.refresh_process_range();
         }
     }
@@ -464,7 +469,11 @@ impl InnerNodeManage {
     fn active_node(&mut self, node_id: u64) {
         if let Some(node) = self.all_nodes.get_mut(&node_id) {
             node.last_active_time = now_millis();
-            node.status = NodeStatus::Valid;
+            if node.status != NodeStatus::Valid {
+                node.status = NodeStatus::Valid;
+                //节点恢复后路由立即把它算作有效节点,负责范围也要同时更新
+                self.sync_process_range();
+            }
         }
     }
 
@@ -483,8 +492,11 @@ impl InnerNodeManage {
         }
         if let Some(node) = self.all_nodes.get_mut(&node_id) {
             node.last_active_time = now_millis();
-            node.status = NodeStatus::Valid;
             node.client_set.insert(client_id);
+            if node.status != NodeStatus::Valid {
+                node.status = NodeStatus::Valid;
+                self.sync_process_range();
+            }
         }
     }
 
